@@ -78,6 +78,8 @@ var properties = map[string][]harnessSpec{
 		{Name: "chord.VerifC16UserDict", Quick: map[string]int{"C16.maxUser": 2}, Thorough: map[string]int{"C16.maxUser": 3}, Marks: []string{"end", "rejected", "accepted"}, MustTerminate: true},
 		{Name: "cmd.VerifC09MainExit", Marks: end},
 		{Name: "cmd.VerifC09WriteConv", Marks: []string{"end", "converted", "refused"}},
+		{Name: "cmd.VerifC09CLINonsense", Marks: end},
+		{Name: "astconv.VerifC09ConvertNoPanic", Quick: map[string]int{"C09.digits": 2, "C09.metaLen": 2}, Thorough: map[string]int{"C09.digits": 3, "C09.metaLen": 3}, Marks: []string{"end", "converted", "refused"}},
 	},
 	"C16": {
 		{Name: "chord.VerifC16LookupHistory", Quick: map[string]int{"C16.history": 2}, Thorough: map[string]int{"C16.history": 3}, Marks: end},
